@@ -621,6 +621,22 @@ fn c11() -> Property {
                 cases_per_seed: 1,
                 note: "scripted peer against a real listener: the peer ends its session and begins the next one on the same channel in one write, 2-5 times, with a link and a message per round: the channel is free for the peer once its end is sent, every begin is answered and every message reaches the link of its own round's session",
             },
+            Variant {
+                name: "peer-picks-identifiers-vs-listener",
+                weight: 2,
+                make: || Box::pin(scen::c11p::run_listener()),
+                max_steps: 3_000_000,
+                cases_per_seed: 1,
+                note: "scripted peer against a real listener: 1-3 sessions on sparse / large channel numbers of the peer's choosing (0 ... 65535 within the agreed channel-max), links on sparse / large handles (0 ... 2^32-1, the same numbers in every session, the same delivery-ids in every session), a handle used again for another link after a closing detach, a channel used again after an end; deliveries of 1-3 frames interleaved across links and sessions, per-link credit grants, dispositions (single and ranges spanning links) with distinguishable outcomes; every message names its link and must come out of that link's receiver and no other, what the endpoint sends must arrive on the (channel, handle) its own attach gave that link and within the credit granted to that link, every send resolves with the outcome of its own delivery on its own session, answering begins / attaches name the peer's channel / link, and the endpoint tears nothing down on its own",
+            },
+            Variant {
+                name: "peer-picks-identifiers-vs-client",
+                weight: 2,
+                make: || Box::pin(scen::c11p::run_client()),
+                max_steps: 3_000_000,
+                cases_per_seed: 1,
+                note: "the same with a real client: the scripted peer answers the client's begins and attaches with channel and handle numbers of its own, and answers a new attach / begin with the number it has just freed",
+            },
         ],
         quick_runs: 5_000,
         thorough_runs: 200_000,
@@ -628,7 +644,7 @@ fn c11() -> Property {
         assumptions: vec!["configurations of C01's circular-wait finding are excluded here (connection buffer raised)"],
         real_components: REAL.to_vec(),
         stub_components: STUB.to_vec(),
-        expected_probes: vec!["duplicate-name-attempted"],
+        expected_probes: vec!["duplicate-name-attempted", "large-channel-number", "large-handle-number", "handle-reused-after-detach", "channel-reused-after-end", "frames-of-two-sessions-interleaved", "routed-incoming-messages-checked", "outcome-of-own-delivery-checked", "credit-granted-to-one-link", "range-disposition-spanning-links"],
     }
 }
 
